@@ -301,6 +301,13 @@ func (r Reply) encode(probe []byte, fl Flow) ([]byte, error) {
 					be.PutUint32(opt[4:8], v)
 					be.PutUint32(opt[8:12], v+uint32(r.mod("sack_width", 1)))
 				}
+				if n := int(r.mod("sack_trim", 0)); n > 0 && len(opt) >= 4+n { // a SACK option whose data is not a multiple of 8 bytes
+					opt = opt[:len(opt)-n]
+					opt[3] = byte(len(opt) - 2)
+					for len(opt)%4 != 0 {
+						opt = append(opt, 1)
+					}
+				}
 				t.Options = opt
 			}
 			if fl.TS { // RFC 7323: TSval advances with the target's clock (here: with the probe answered), TSecr echoes ours
